@@ -5,7 +5,7 @@
    CNAME/other-data exclusivity.  Proofs: Proofs/Txn*.v. *)
 From DV Require Import Base.Prelude Model.NameM Model.TxnM.
 From DV Require Import Proofs.NameValid Proofs.TxnName Proofs.TxnStore Proofs.TxnLow Proofs.TxnSim Proofs.TxnThm
-                       Proofs.TxnIrrel Proofs.TxnSpec Proofs.TxnInv Proofs.TxnItems Proofs.TxnAbs.
+                       Proofs.TxnIrrel Proofs.TxnSpec Proofs.TxnInv Proofs.TxnItems Proofs.TxnAbs Proofs.TxnHeap.
 Open Scope Z_scope.
 
 (* Any history of transactions - every operation and argument form, manual commit/rollback or with-block,
@@ -88,6 +88,26 @@ Theorem clean_exit_publishes_the_transaction_view :
              z' = if negb (t_ro t') && s_changed st (t_st t') then s_publish st (t_st t') else z.
 Proof. exact @clean_exit_commits. Qed.
 Print Assumptions clean_exit_publishes_the_transaction_view.
+
+(* All-or-nothing at the level of objects (the object-level model `hstore`: node objects with identity, the
+   open version sharing them with the published zone, copy-on-write): whatever calls succeed inside a
+   transaction, and however it ends, every node object that existed when it began still holds what it held -
+   so the published zone and every older version are intact. *)
+Theorem published_objects_never_mutated :
+  forall c z mode ops t',
+  ids_ok (fst z) (snd z) -> Forall op_valid ops ->
+  final_txn (hstore c) c ops z (open_txn (hstore c) mode z) = Some t' ->
+  forall id, (id < length (fst z))%nat -> hnode (hv_heap (t_st t')) id = hnode (fst z) id.
+Proof. exact TxnHeap.published_objects_never_mutated. Qed.
+Print Assumptions published_objects_never_mutated.
+
+(* the object-level model refines the value-level model that `refines` is about: same results for every
+   call, and the published objects dereference to the published value *)
+Theorem object_level_refines_value_level :
+  forall c h hz z, Forall spec_valid h -> RPh hz z ->
+  Forall2 (ROut RPh) (heap_hist c h hz) (impl_hist c h z).
+Proof. exact heap_refines_value. Qed.
+Print Assumptions object_level_refines_value_level.
 
 (* ended transactions refuse every call; read-only transactions refuse every write *)
 Theorem ended_refuses_all :
@@ -358,3 +378,13 @@ Proof.
   - split; [repeat split; [repeat constructor; cbn; lia|cbn; lia|constructor]|reflexivity].
   - split; [discriminate|]. split; [repeat constructor; intros []|repeat constructor].
 Qed.
+
+Example ex_heap : RPh ([], []) [] /\ ids_ok (@nil node) [].
+Proof. split; [apply RPh_empty|intros i []]. Qed.
+
+(* object identities: the committed add allocates a new node object (id 0); the aborted delete copies it
+   (id 1, garbage after the abort) and the published map still points to object 0, which is untouched *)
+Example ex_heap_run :
+  map snd (heap_hist ex_cfg ex_hist ([], [])) =
+  [ ([[ex_a]], [(ex_www, 0%nat)]); ([[ex_a]], [(ex_www, 0%nat)]) ].
+Proof. vm_compute. reflexivity. Qed.
